@@ -928,3 +928,52 @@ def faults_obligation(o, tier, seed):
         r[k] += r2[k]
     r["encoded"] = sorted(set(r["encoded"]) | set(r2["encoded"]))
     return outcomes_from(o, r, "faults", native, e2, Outcome)
+
+
+# ------------------------------------------------------------------------------------ split_imbalance (C20)
+def run_split_imbalance(ctx, deadline):
+    """split_imbalance(l, r) from its MIR (f64 arithmetic as z3 FP terms): never NaN, in [0.5, 1],
+    including l = r = 0 (the 0/0 guard)."""
+    eng = make_engine(ctx)
+    eng.solver.set("timeout", 240000)
+    fn = find_fn(ctx.fns, r"^split_imbalance$")
+    res = {"paths": 0, "violations": [], "unknown": [], "shapes": []}
+    l, r = z3.BitVec("left_len", 64), z3.BitVec("right_len", 64)
+    pc = [z3.ULE(l, BV(255, 64)), z3.ULE(r, BV(255, 64))]
+    finals = eng.run(fn, [l, r], env={}, pc=pc, deadline=deadline)
+    for f in finals:
+        res["paths"] += 1
+        if f.status != "return":
+            (res["unknown"] if f.status in ("unknown", "unwind") else res["violations"]).append(
+                f"{f.status}: {f.info}" if f.status in ("unknown", "unwind") else
+                {"shape": "any", "clause": "panics: " + f.info, "pre": None, "values": {}})
+            continue
+        v = f.value
+        half = z3.FPVal(0.5, z3.Float64())
+        one_ = z3.FPVal(1.0, z3.Float64())
+        try:
+            ok, m = eng.check(f.pc, z3.Or(z3.fpIsNaN(v), z3.fpLT(v, half), z3.fpGT(v, one_)))
+        except E.Unknown as e:
+            res["unknown"].append(str(e))
+            continue
+        if ok:
+            res["violations"].append({"shape": "any", "clause": "split_imbalance is NaN or outside [0.5, 1]", "pre": None,
+                                      "values": {"left": m.eval(l, model_completion=True).as_long(),
+                                                 "right": m.eval(r, model_completion=True).as_long(),
+                                                 "result": str(m.eval(v, model_completion=True))}})
+    res["shapes"].append({"shape": "all (l, r) <= 255", "paths": len(finals), "ok_paths": len(finals)})
+    res["queries"], res["solver_s"] = eng.queries, round(eng.solver_s, 2)
+    res["encoded"] = sorted(E.short(n) for n in eng.encoded)
+    return res
+
+
+def split_imbalance_obligation(o, tier, seed):
+    import e2
+    import native
+    from driver import Outcome
+    try:
+        ctx = e2.context(True)
+    except RuntimeError as e:
+        return [Outcome(o["id"], "mirsym", "inconclusive", str(e))]
+    r = run_split_imbalance(ctx, time.time() + 600)
+    return outcomes_from(o, r, "none", native, e2, Outcome)
